@@ -135,19 +135,42 @@ theorem C05_illtyped_spec (env : Env) (rf : Form → GS → Res → Option (List
 
 /-! ## The rules of 9.3–9.4, stated on the interpreter alone -/
 
-/-- Showing one string: the pen moves by `tx = (w0·Tfs + Tc + Tw?)·Th` per glyph — character
-spacing after every glyph, also the last one (the `needcharspace` defect of the pinned code). -/
-theorem C05_string_displacement (f : Font) (M : Matrix) (gs : GS) (y x : Rat) (codes : List Nat) :
+/-- Showing one string, horizontal writing: the pen moves by `tx = (w0·Tfs + Tc + Tw?)·Th` per
+glyph — character spacing after every glyph, also the last one (the `needcharspace` defect of the
+pinned code); word spacing only for single-byte fonts. -/
+theorem C05_string_displacement (f : Font) (M : Matrix) (gs : GS) (y x : Rat) (codes : List Nat)
+    (hv : f.vertical = false) :
     showCodes f gs (translate_matrix M (x, y)) codes =
       (translate_matrix M
         ((renderCodes f (mult_matrix M gs.ctm) gs.Tfs (rs_scaling gs.Th) (rs_charspace gs.Tc (rs_scaling gs.Th))
-            (rs_wordspace gs.Tw (rs_scaling gs.Th)) gs.Trise gs.fill y x codes).1, y),
+            (wsOf f gs) gs.Trise gs.fill y x codes).1, y),
        (renderCodes f (mult_matrix M gs.ctm) gs.Tfs (rs_scaling gs.Th) (rs_charspace gs.Tc (rs_scaling gs.Th))
-            (rs_wordspace gs.Tw (rs_scaling gs.Th)) gs.Trise gs.fill y x codes).2) :=
-  renderCodes_showCodes f M gs y codes x
+            (wsOf f gs) gs.Trise gs.fill y x codes).2) :=
+  renderCodes_showCodes f M gs y codes hv x
+
+/-- Vertical writing (composite fonts): the pen moves *down the y axis* by `ty = w1·Tfs + Tc` per
+glyph, **not** scaled by Th (`render_string_vertical` after the fix; the pinned code multiplied the
+advance, Tc and TJ adjustments by Tz/100). -/
+theorem C05_string_displacement_vertical (f : Font) (M : Matrix) (gs : GS) (y x : Rat) (codes : List Nat)
+    (hv : f.vertical = true) (hm : f.multibyte = true) :
+    showCodes f gs (translate_matrix M (x, y)) codes =
+      (translate_matrix M (x,
+        (renderCodesV f (mult_matrix M gs.ctm) gs.Tfs (rs_scaling gs.Th) (rs_charspace_v gs.Tc (rs_scaling gs.Th))
+            (wsOf f gs) gs.Trise gs.fill x y codes).1),
+       (renderCodesV f (mult_matrix M gs.ctm) gs.Tfs (rs_scaling gs.Th) (rs_charspace_v gs.Tc (rs_scaling gs.Th))
+            (wsOf f gs) gs.Trise gs.fill x y codes).2) :=
+  renderCodesV_showCodes f M gs x codes hv hm y
+
+/-- Type 3 fonts: the scales pdfminer takes from the FontMatrix are its `a` and `d` entries, i.e. a
+glyph-space displacement `(w, 0)` becomes `w·a` in text space (9.6.5) whatever the skew terms are. -/
+theorem C05_type3_scale (a b c d e f : Rat) :
+    type3_hscale (a, b, c, d, e, f) = a ∧ type3_vscale (a, b, c, d, e, f) = d := by
+  simp only [type3_hscale, type3_vscale, apply_matrix_norm]
+  constructor <;> grind
 
 /-- The glyph `LTChar.__init__` builds is the glyph of the text model: matrix `Tm × CTM`,
-advance `w0·Tfs·Th`, box of `[0, d+Trise, adv, d+Trise+Tfs]` under that matrix. -/
+advance `w0·Tfs·Th` (vertical writing: `w1·Tfs`), the glyph box under that matrix — for simple,
+Type 3 and CID fonts in both writing modes. -/
 theorem C05_glyph (f : Font) (M : Matrix) (gs : GS) (x y : Rat) (c : Nat) :
     ltchar (translate_matrix (mult_matrix M gs.ctm) (x, y)) f gs.Tfs (rs_scaling gs.Th) gs.Trise c gs.fill
       = observe (mult_matrix (translate_matrix M (x, y)) gs.ctm) f gs c :=
@@ -199,14 +222,17 @@ theorem C05_budget_suffices (env : Env) (hr : Ranked env) (fuel : Nat) (hfuel : 
 
 /-! ## Non-vacuity: the hypotheses are met by non-trivial instances -/
 
-private def exFont : Font := ⟨"VfD0", 32, [250, 500, 504, 508], 300, -200⟩
+private def exFont : Font := ⟨"VfD0", 32, [250, 500, 504, 508], 300, -200, 1 / 1000, 1 / 1000, false, false, [], 880⟩
+
+/-- An Identity-V CID font: w1y = −1000 for CIDs 1–2 (position vector (500, 880)), DW2 = [880 −900]. -/
+private def exFontV : Font := ⟨"VfV0", 1, [-1000, -1000], -900, -120, 1 / 1000, 1 / 1000, true, true, [(500, 880), (500, 880)], 880⟩
 
 /-- A form that relies on what it inherits (font, size, fill colour): `BT 1 2 Td (!) Tj ET`. -/
 private def exFormProg : List Instr :=
   [⟨.BT, []⟩, ⟨.Td, [.num 1, .num 2]⟩, ⟨.Tj, [.str [33]]⟩, ⟨.ET, []⟩]
 private def exForm : Form := ⟨some (2, 0, 0, 2, 50, 60), some ⟨[("F1", 0)], []⟩, exFormProg.flatMap Instr.toks⟩
-private def exEnv : Env := ⟨[exFont], [exForm]⟩
-private def exRes : Res := ⟨[("F1", 0)], [("X0", 0)]⟩
+private def exEnv : Env := ⟨[exFont, exFontV], [exForm]⟩
+private def exRes : Res := ⟨[("F1", 0), ("V1", 1)], [("X0", 0)]⟩
 
 /-- `q 1 0 0 1 10 20 cm /X0 Do Q BT /F1 10 Tf 1 0 0 1 100 700 Tm 2 Tc 3 Tw 50 Tz 12 TL (! ) Tj
 /x 5 Td 1 2 (") " [-100 (#)] TJ ET` — a form with a Matrix, then caller text; Tc/Tw/Tz; an
@@ -235,6 +261,17 @@ example : (TextModel.runPage exEnv 3 MATRIX_IDENTITY exRes exProg).map (fun l =>
 /-- The form's glyph carries the font size 8 and the fill colour it inherited from the page. -/
 example : (TextModel.runPage exEnv 3 MATRIX_IDENTITY exRes exProg).map (fun l => l.head?.map (fun g => (g.size, g.col)))
     = some (some (16, some [1, 0, 1/2])) := by decide +kernel
+
+/-- Vertical writing with `50 Tz 2 Tc`: `BT /V1 10 Tf 50 Tz 2 Tc <00010003> Tj [100 <0002>] TJ ET` —
+three glyphs going down by `w1·Tfs + Tc` = −8, then −7 (DW2), then the TJ adjustment −1; Tz has no
+effect (hypotheses of `C05_string_displacement_vertical` and of `C05_program` are satisfiable). -/
+example : (TextModel.runPage exEnv 3 MATRIX_IDENTITY exRes
+      [⟨.BT, []⟩, ⟨.Tf, [.name "V1", .num 10]⟩, ⟨.Tz, [.num 50]⟩, ⟨.Tc, [.num 2]⟩, ⟨.Tj, [.str [0, 1, 0, 3]]⟩,
+       ⟨.TJ, [.arr [.num 100, .str [0, 2]]]⟩, ⟨.ET, []⟩]).map
+      (fun l => l.map (fun g => (g.m.2.2.2.2.1, g.m.2.2.2.2.2, g.adv)))
+    = some [(0, 0, -10), (0, -8, -9), (0, -16, -10)] := by decide +kernel
+
+example : exFontV.vertical = true ∧ exFontV.multibyte = true := by decide
 
 /-- An instruction with an ill-typed operand that meets the hypotheses of `C05_illtyped`. -/
 example : sig (GS.init MATRIX_IDENTITY) Op.Td = some [Ty.num, Ty.num] ∧
